@@ -103,6 +103,7 @@ fn scheme_of(s: &str) -> Variants {
         "all-unary" => Variants::AllUnary,
         "one-unary" => Variants::OneUnary,
         "one-paren" => Variants::OneParen,
+        "tight" => Variants::Tight,
         _ => Variants::Base,
     }
 }
@@ -160,7 +161,8 @@ fn check_chains(case: &Value) -> Value {
     let mut n = 0u64;
     let mut nontrivial = 0u64;
     for chunk in all.chunks(500) {
-        let texts: Vec<String> = chunk.iter().map(|t| spell(t)).collect();
+        let tight = scheme == Variants::Tight;
+        let texts: Vec<String> = chunk.iter().map(|t| if tight { vcore::prec::spell_tight(t) } else { spell(t) }).collect();
         let mut judge = |toks: &Vec<Tok>, text: &str, got: Result<&Expression, String>| {
             n += 1;
             let expected = match Climber::parse(toks) {
@@ -547,6 +549,9 @@ pub fn drive(tier: &str) -> i32 {
         plan.push((len, "one-paren"));
     }
     plan.push((3, "one-unary"));
+    for len in 1..=(if quick { 2 } else { 3 }) {
+        plan.push((len, "tight"));
+    }
     if !quick {
         plan.push((4, "one-unary"));
         plan.push((5, "one-unary"));
@@ -587,7 +592,7 @@ pub fn drive(tier: &str) -> i32 {
         run.capped = true;
     }
     let mut ev = Evidence::new("exploration");
-    ev.set("rule", "(a) every operator sequence of the planned lengths over the 13 binary operators on operands A..F, with the listed unary / parenthesis variant schemes, is spelled, parsed by the real parser (500 per program) and its tree compared with an independent precedence climber (unary minus > * / > MOD > + - > relational > NOT > AND > OR, left-associative), modulo re-association inside homogeneous AND or OR chains; non-trivial = operators of at least two different rank classes, or a unary operator / parenthesis, are involved. (b) every literal text of the lattice is checked plain, after a unary minus, after a double unary minus and after a binary minus: node kind and exact value from the parse tree; the lattice includes hexadecimal / octal literals of up to 44 digits (beyond 64 and 128 bits: rejected, never a panic) and fractions of up to 55 digits next to the midpoint of two adjacent SINGLEs / DOUBLEs. (c) run level: 80 pairs of SINGLE / DOUBLE literals 0.000001 .. 0.5 apart, assigned one after the other in both orders and compared as variables and as literals inside one expression — each literal keeps its own value (expected truth values from Rust's parse of the digits). Enumeration without repeats.");
+    ev.set("rule", "(a) every operator sequence of the planned lengths over the 13 binary operators on operands A..F, with the listed unary / parenthesis variant schemes, is spelled, parsed by the real parser (500 per program) and its tree compared with an independent precedence climber (unary minus > * / > MOD > + - > relational > NOT > AND > OR, left-associative), modulo re-association inside homogeneous AND or OR chains; the scheme `tight` parenthesises one operand or sub-chain, bare or directly after a unary minus / NOT, and writes no blank between an operator and a parenthesis next to it (NOT(A)+B, A MOD(B)*C, (A)AND(B)); non-trivial = operators of at least two different rank classes, or a unary operator / parenthesis, are involved. (b) every literal text of the lattice is checked plain, after a unary minus, after a double unary minus and after a binary minus: node kind and exact value from the parse tree; the lattice includes hexadecimal / octal literals of up to 44 digits (beyond 64 and 128 bits: rejected, never a panic) and fractions of up to 55 digits next to the midpoint of two adjacent SINGLEs / DOUBLEs. (c) run level: 80 pairs of SINGLE / DOUBLE literals 0.000001 .. 0.5 apart, assigned one after the other in both orders and compared as variables and as literals inside one expression — each literal keeps its own value (expected truth values from Rust's parse of the digits). Enumeration without repeats.");
     ev.set("exhaustive", !run.capped);
     ev.set("plan", json!(plan_report));
     ev.set("literal_texts", lit_count as u64);
